@@ -168,8 +168,7 @@ fn c04_ligature_selection() {
 #[kani::stub(std::collections::hash_map::RandomState::new, crate::util::stub_random_state)]
 fn c04_context_match_span() {
     use allsorts::context::{GlyphTable, MatchContext};
-    use allsorts::gdef::GDEFTable;
-    use allsorts::layout::{ClassDef, LookupList};
+    use allsorts::layout::{ClassDef, GDEFTable, LookupList};
     let mut cbuf = [0u8; 14];
     put16(&mut cbuf, 0, 1);
     put16(&mut cbuf, 4, 4);
